@@ -2,7 +2,7 @@
    number in it is inside the machine range -- for any pipeline, any arguments, any numbers,
    however large; and pipelines with an empty segment are refused. *)
 From SP Require Import Model.Syntax Model.Scanner Proofs.PegP Proofs.SyntaxP Proofs.ArgP Proofs.NumP
-  Proofs.RangeSynP Proofs.OpSynP Proofs.BlockSynP.
+  Proofs.RangeSynP Proofs.OpSynP Proofs.BlockSynP Proofs.ScannerP.
 Local Open Scope N_scope.
 
 Lemma mapM_conv_simple l : mapM conv_simple l = if forallb simple_ok l then Ok l else Err.
@@ -117,4 +117,94 @@ Proof.
   rewrite (template_around_list dbg _ kids (if forallb printable (o :: ops) then Ok (o :: ops) else Err) Hrun); [destruct (forallb printable (o :: ops)); reflexivity| |exact Hm].
   - cbn [forallb] in Hall. apply andb_true_iff in Hall as [Ho _]. destruct (shape_top_head o Ho) as (c & t & E & Hc).
     rewrite print_pipe_cons, E. exists c. eexists. split; [rewrite <- !app_assoc, <- app_comm_cons; reflexivity | exact Hc].
+Qed.
+
+(* ---- empty pipeline segments ------------------------------------------------------------------- *)
+Lemma operation_fails_on_pipe w : run r_operation false (124 :: w) = None.
+Proof. reflexivity. Qed.
+Lemma operation_fails_on_close w : run r_operation false (125 :: w) = None.
+Proof. reflexivity. Qed.
+
+(* "{|...": nothing before the first "|" *)
+Theorem leading_pipe_rejected (dbg : bool) (w : str) :
+  parse_template (123 :: (if dbg then [33] else []) ++ 124 :: w) = Err.
+Proof. destruct dbg; reflexivity. Qed.
+
+(* after any pipeline in any regex-free spelling, a "|" that is not followed by an operation:
+   "a|b|}" (nothing after the last "|"), "a||b" (nothing between two "|"), "a|#..." *)
+Theorem dangling_pipe_rejected (dbg : bool) (items : list item) (T : str) :
+  items <> [] -> all_spelled spells items -> run r_operation false T = None ->
+  parse_template (123 :: (if dbg then [33] else []) ++ pipe_text (texts items) ++ 124 :: T) = Err.
+Proof.
+  intros Hne Hall HT. destruct items as [|it items]; [congruence|].
+  assert (Hend : run (PSeq (PStr [124]) r_operation) false (124 :: T) = None).
+  { rewrite run_seq. change (124 :: T) with ([124] ++ T). rewrite run_str, seq_res_some, HT. reflexivity. }
+  assert (Hchain : chain_gen (fun o t rest => spells o t /\ op_stops rest) (it :: items) (124 :: T)).
+  { clear Hne Hend. induction Hall as [|x l Hx _ IH]; [exact I|]. cbn [chain_gen]. split; [|exact IH]. split; [exact Hx|].
+    destruct l as [|y l']; cbn; eexists; eexists; (split; [reflexivity|]); auto. }
+  destruct (run_pipe_gen r_operation R_operation (fun o t rest => spells o t /\ op_stops rest) parse_operation (fun o => Ok o)
+              (fun o txt rest H => operation_reads o txt rest (proj1 H) (proj2 H)) R_operation_list it items (124 :: T) Hend Hchain) as (kids & Hrun & _).
+  fold r_operation_list in Hrun.
+  assert (Hhead : exists c t, pipe_text (texts (it :: items)) ++ 124 :: T = c :: t /\ N.eqb 33 c = false).
+  { destruct it as [o txt]. inversion Hall as [|? ? Ho _]; subst. cbn [fst snd] in Ho.
+    destruct (spells_head o txt Ho) as (c & t & -> & Hc). cbn [texts map snd pipe_text].
+    exists c. eexists. split; [rewrite <- !app_assoc, <- app_comm_cons; reflexivity | exact Hc]. }
+  destruct Hhead as (c & t & Eh & Hc).
+  set (body := pipe_text (texts (it :: items))) in *.
+  unfold parse_template, r_template. rewrite run_rule_normal, run_seq.
+  destruct dbg.
+  - change (123 :: [33] ++ body ++ 124 :: T) with ([123] ++ [33] ++ body ++ 124 :: T).
+    rewrite run_str, seq_res_some, run_seq, run_opt.
+    unfold r_debug_flag. rewrite run_rule_atomic, run_str.
+    rewrite seq_res_some, run_seq, run_opt, Hrun, seq_res_some, run_seq.
+    rewrite (str_fail_head [] 125 false 124 T eq_refl). reflexivity.
+  - change (123 :: [] ++ body ++ 124 :: T) with ([123] ++ body ++ 124 :: T).
+    rewrite run_str, seq_res_some, run_seq, run_opt.
+    assert (Hdbg : run r_debug_flag false (body ++ 124 :: T) = None).
+    { rewrite Eh. unfold r_debug_flag. rewrite run_rule_atomic. rewrite (str_fail_head [] 33 true c _ Hc). reflexivity. }
+    rewrite Hdbg, seq_res_some, run_seq, run_opt, Hrun, seq_res_some, run_seq.
+    rewrite (str_fail_head [] 125 false 124 T eq_refl). reflexivity.
+Qed.
+
+Corollary trailing_pipe_rejected (dbg : bool) (items : list item) : items <> [] -> all_spelled spells items ->
+  parse_template (123 :: (if dbg then [33] else []) ++ pipe_text (texts items) ++ [124; 125]) = Err.
+Proof. intros H1 H2. exact (dangling_pipe_rejected dbg items [125] H1 H2 (operation_fails_on_close [])). Qed.
+
+Corollary double_pipe_rejected (dbg : bool) (items : list item) (w : str) : items <> [] -> all_spelled spells items ->
+  parse_template (123 :: (if dbg then [33] else []) ++ pipe_text (texts items) ++ 124 :: 124 :: w) = Err.
+Proof. intros H1 H2. exact (dangling_pipe_rejected dbg items (124 :: w) H1 H2 (operation_fails_on_pipe w)). Qed.
+
+(* ---- an unclosed block --------------------------------------------------------------------------- *)
+Lemma single_scan_app a : forall b d e,
+  single_scan (a ++ b) d e = match single_scan a d e with Some (d', e') => single_scan b d' e' | None => None end.
+Proof.
+  induction a as [|ch a IH]; intros b d e; [reflexivity|]. cbn [app single_scan].
+  destruct e; [apply IH|]. destruct (N.eqb ch c_bslash); [apply IH|]. destruct (N.eqb ch c_lbrace); [apply IH|].
+  destruct (N.eqb ch c_rbrace); [destruct d; [reflexivity | apply IH] | apply IH].
+Qed.
+
+(* text whose braces balance (in the escape-aware sense), with the closing brace missing *)
+Theorem unclosed_block_rejected (w : str) : neutral w -> template_parse (123 :: w) = Err.
+Proof.
+  intros Hn. pose proof (Hn [] 0%nat) as H0. rewrite app_nil_r in H0. cbn [single_scan] in H0.
+  assert (Hsingle : is_single_block (123 :: w) = false).
+  { unfold is_single_block. rewrite frev_rev. destruct (rev w) as [|last inner_rev] eqn:Er; [reflexivity|].
+    assert (Ew : w = rev inner_rev ++ [last]) by (rewrite <- (rev_involutive w), Er; reflexivity).
+    unfold c_lbrace. rewrite N.eqb_refl. cbn [andb]. destruct (N.eqb last c_rbrace) eqn:El; [|reflexivity]. cbn [andb].
+    rewrite frev_rev. apply N.eqb_eq in El. subst last.
+    rewrite Ew, single_scan_app in H0. destruct (single_scan (rev inner_rev) 0 false) as [[d' e']|]; [|discriminate].
+    cbn [single_scan] in H0. destruct e'; [destruct d'; [reflexivity | reflexivity]|].
+    unfold c_rbrace, c_bslash, c_lbrace in H0. cbn [N.eqb Pos.eqb] in H0. destruct d' as [|[|k]]; [discriminate | reflexivity | reflexivity]. }
+  unfold template_parse, try_single_block. rewrite Hsingle. cbn [bind]. unfold parse_multi_template. cbn [fold_left].
+  assert (Hstep : scan_step scan_init 123 = in_sec scan_init [] 1 false) by reflexivity.
+  rewrite Hstep, (scan_sec_body w scan_init [] 0 false 0 false H0). reflexivity.
+Qed.
+
+Corollary unclosed_spelled_block_rejected (dbg : bool) (items : list item) : all_spelled spells items ->
+  template_parse (123 :: (if dbg then [33] else []) ++ pipe_text (texts items)) = Err.
+Proof.
+  intros Hall. apply unclosed_block_rejected.
+  apply neutral_app; [destruct dbg; [apply neutral_plain; reflexivity | apply neutral_nil]|].
+  apply neutral_pipe_text. apply Forall_forall. intros t Hin. apply in_map_iff in Hin as (it & <- & Hit).
+  unfold all_spelled in Hall. rewrite Forall_forall in Hall. exact (neutral_spells _ _ (Hall it Hit)).
 Qed.
